@@ -9,6 +9,7 @@ ID=$1; NAME=$2; WT=$3; shift 3
 CHECKS="$ID $*"
 REPO=${MUT_REPO:-/repo}   # a scratch worktree of /repo may be used instead (the checks then run with POLAR_REPO=$REPO)
 cd "$(dirname "$0")/.."
+export VERIF_EVIDENCE_DIR="$PWD/out/evidence-scratch"   # runs with a seeded change never overwrite evidence/
 D=seeded/$ID-$NAME
 mkdir -p "$D"
 git -C "$WT" diff > "$D/patch.diff"
